@@ -31,6 +31,14 @@
       response writer drops delta rows whose id it has seen); every non-empty filtered delta batch is
       appended as a new frame; SHOW never applies LIMIT/OFFSET to its output.
 
+    - SHOW persists in two steps: every filtered delta batch is appended to the store (frame file + manifest)
+      while the response is streamed; the catalog entry (with its own copy of the mark) is rewritten only after the
+      response was written completely.  A client that hangs up (or a crash) in between leaves new frames in the
+      store and a stale catalog mark ([OShowFail]; the delta task is aborted, so any duplicate-free selection of the
+      delta batches may have been appended).  The next SHOW takes the frames, the guard timestamp and the
+      watermark filter from the STORE's manifest (last frame) and only the SINCE of the delta query from the catalog
+      entry ([n_cat]).
+
     Not modelled: ORDER BY / OFFSET / aggregates / sequences in the remembered query, retention policies,
     batches above 32768 rows, a SHOW racing with a flush (SHOW waits for in-flight flushes first). *)
 From Coq Require Import NArith List Bool.
@@ -240,10 +248,21 @@ Definition delta_lower (q : query) (m : mark) (n : N) (b : list event) : N :=
   let fb := show_filter q m b in
   if lenN b <=? n then lenN fb else n - (lenN b - lenN fb).
 
-Definition show_frames (q : query) (fs : list (list event)) (l : layout) (ch : choice)
+(** which mark the next SHOW uses (read from the Rust text): the guard timestamp and the watermark filter come from
+    the store's manifest ([mat_delta_mark_from_store]: refresher.rs [sink.high_water_mark()]), the SINCE of the delta
+    query from the catalog entry ([mat_delta_since_from_catalog]: orchestrator.rs [delta_command(entry.high_water_mark)]) *)
+Definition filter_mark (fs : list (list event)) (cat : mark) : mark :=
+  if mat_delta_mark_from_store then frames_mark fs else cat.
+Definition since_mark (fs : list (list event)) (cat : mark) : mark :=
+  if mat_delta_since_from_catalog then cat else frames_mark fs.
+
+Definition delta_batches (q : query) (fs : list (list event)) (cat : mark) (l : layout) : list (list event) :=
+  sources (Some (fst (filter_mark fs cat))) (delta_query q (since_mark fs cat)) l.
+
+Definition show_frames (q : query) (fs : list (list event)) (cat : mark) (l : layout) (ch : choice)
   : option (list (list event)) :=
-  let m := frames_mark fs in
-  let bs := sources (Some (fst m)) (delta_query q m) l in
+  let m := filter_mark fs cat in
+  let bs := delta_batches q fs cat l in
   match q_limit q with
   | None => let fbs := map (show_filter q m) bs in
             let ord := map fst ch in
@@ -256,6 +275,34 @@ Definition show_frames (q : query) (fs : list (list event)) (l : layout) (ch : c
       | None => None
       end
   end.
+
+(** An interrupted SHOW (the response writer failed, the delta task was aborted): the batches named by the
+    choice — any duplicate-free selection of the non-empty filtered delta batches, in arrival order — were
+    appended; [rest] are the ones that were not. *)
+Definition valid_prefix (fbs : list (list event)) (ord : list N) : bool :=
+  nodupN ord && forallb (fun i => (i <? lenN fbs) && nonempty (nthN fbs i [])) ord.
+Definition rest_of (fbs : list (list event)) (ord : list N) : list (list event) :=
+  flat_map (fun j => if memN j ord then [] else let b := nthN fbs j [] in if nonempty b then [b] else [])
+           (seqN (length fbs)).
+Definition show_fail_frames (q : query) (fs : list (list event)) (cat : mark) (l : layout) (ch : choice)
+  : option (list (list event) * list (list event)) :=
+  let m := filter_mark fs cat in
+  let bs := delta_batches q fs cat l in
+  match q_limit q with
+  | None => let fbs := map (show_filter q m) bs in
+            let ord := map fst ch in
+            if valid_prefix fbs ord then Some (frames_of fbs ord, rest_of fbs ord) else None
+  | Some n =>
+      match delta_cut q m n bs ch [] with
+      | Some (nf, _) => Some (nf, [])
+      | None => None
+      end
+  end.
+
+(** orchestrator.rs build_outcome: the catalog mark after a completed SHOW *)
+Definition mark_eqb (a b : mark) : bool := (fst a =? fst b) && (snd a =? snd b).
+Definition cat_after (cat m0 m' : mark) : mark :=
+  if mark_zero m' then cat else if mark_eqb m' m0 then cat else m'.
 
 (** the response writer's id filter when the watermark filter is disabled *)
 Fixpoint dedup_seen (seen : list N) (l : list event) : list event :=
@@ -276,7 +323,8 @@ Definition show_output (q : query) (old new : list (list event)) : list event :=
 
 (** ** The catalog and the step function *)
 
-Record entry := mkEntry { n_q : query; n_frames : list (list event) }.
+(** [n_frames]: the store's manifest; [n_cat]: the catalog entry's high_water_mark ((0,0) = None) *)
+Record entry := mkEntry { n_q : query; n_frames : list (list event); n_cat : mark }.
 Record state := mkState { st_layout : layout; st_entries : list (N * entry) }.
 
 Fixpoint lookup (name : N) (es : list (N * entry)) : option entry :=
@@ -293,13 +341,15 @@ Fixpoint update (name : N) (e : entry) (es : list (N * entry)) : list (N * entry
 Inductive op :=
 | OSetLayout (l : layout)                          (* STORE / FLUSH / compaction / restart: the new quiescent layout *)
 | ORemember (name : N) (q : query) (ch : choice)
-| OShow (name : N) (ch : choice).
+| OShow (name : N) (ch : choice)
+| OShowFail (name : N) (ch : choice).               (* SHOW whose delivery failed: frames of [ch] appended, catalog untouched *)
 
 Inductive obs :=
 | ObsLayout
 | ObsRemembered (frames : list (list event)) (m : mark)
 | ObsRejected                                      (* "Materialization '…' already exists" *)
-| ObsShow (out : list event) (new_frames : list (list event)) (m : mark)
+| ObsShow (out : list event) (new_frames : list (list event)) (m : mark) (cat : mark)
+| ObsShowFailed (appended : list (list event)) (m : mark) (cat : mark)
 | ObsUnknown                                       (* "Materialization '…' not found" *)
 | ObsBadChoice.                                    (* the given arrival order is not one the model admits *)
 
@@ -312,7 +362,7 @@ Definition step (st : state) (o : op) : state * obs :=
       | None =>
           match remember_frames q (st_layout st) ch with
           | None => (st, ObsBadChoice)
-          | Some fs => (mkState (st_layout st) (st_entries st ++ [(name, mkEntry q fs)]),
+          | Some fs => (mkState (st_layout st) (st_entries st ++ [(name, mkEntry q fs (frames_mark fs))]),
                         ObsRemembered fs (frames_mark fs))
           end
       end
@@ -320,12 +370,28 @@ Definition step (st : state) (o : op) : state * obs :=
       match lookup name (st_entries st) with
       | None => (st, ObsUnknown)
       | Some en =>
-          match show_frames (n_q en) (n_frames en) (st_layout st) ch with
+          match show_frames (n_q en) (n_frames en) (n_cat en) (st_layout st) ch with
           | None => (st, ObsBadChoice)
           | Some nf =>
               let fs' := n_frames en ++ nf in
-              (mkState (st_layout st) (update name (mkEntry (n_q en) fs') (st_entries st)),
-               ObsShow (show_output (n_q en) (n_frames en) nf) nf (frames_mark fs'))
+              let cat' := cat_after (n_cat en) (frames_mark (n_frames en)) (frames_mark fs') in
+              (mkState (st_layout st) (update name (mkEntry (n_q en) fs' cat') (st_entries st)),
+               ObsShow (show_output (n_q en) (n_frames en) nf) nf (frames_mark fs') cat')
+          end
+      end
+  | OShowFail name ch =>
+      match lookup name (st_entries st) with
+      | None => (st, ObsUnknown)
+      | Some en =>
+          match show_fail_frames (n_q en) (n_frames en) (n_cat en) (st_layout st) ch with
+          | None => (st, ObsBadChoice)
+          | Some (ap, _) =>
+              let fs' := n_frames en ++ ap in
+              (* the catalog entry is rewritten after the response ([mat_catalog_after_response]): not at all here *)
+              let cat' := if mat_catalog_after_response then n_cat en
+                          else cat_after (n_cat en) (frames_mark (n_frames en)) (frames_mark fs') in
+              (mkState (st_layout st) (update name (mkEntry (n_q en) fs' cat') (st_entries st)),
+               ObsShowFailed ap (frames_mark fs') cat')
           end
       end
   end.
@@ -380,7 +446,13 @@ Definition keeps_events (st : state) (l : layout) : bool :=
   forallb (fun e => in_events e (content l)) (content (st_layout st)).
 
 Inductive known_class :=
-| PayloadTimeField | LimitNotReapplied | MarkOfLastFrame | EventNotAboveMark | RawStreamDuplicates | SegmentOlderThanEvent.
+| PayloadTimeField | LimitNotReapplied | MarkOfLastFrame | EventNotAboveMark | RawStreamDuplicates | SegmentOlderThanEvent
+| InterruptedRefresh.
+
+(** an interrupted SHOW appended some delta batches and left out one holding a row that is not above the mark of
+    the last appended frame: that row is below the store's mark and is never delivered *)
+Definition strands (ap rest : list (list event)) : bool :=
+  nonempty ap && existsb (fun e => mle (ekey e) (frames_mark ap)) (concat rest).
 
 (** classes an operation falls into, in the state it is applied to *)
 Definition classes_of (st : state) (o : op) : list known_class :=
@@ -403,8 +475,19 @@ Definition classes_of (st : state) (o : op) : list known_class :=
       match lookup name (st_entries st) with
       | None => []
       | Some en =>
-          match show_frames (n_q en) (n_frames en) (st_layout st) ch with
+          match show_frames (n_q en) (n_frames en) (n_cat en) (st_layout st) ch with
           | Some nf => if nonempty nf && negb (last_dominates nf) then [MarkOfLastFrame] else []
+          | None => []
+          end
+      end
+  | OShowFail name ch =>
+      match lookup name (st_entries st) with
+      | None => []
+      | Some en =>
+          match show_fail_frames (n_q en) (n_frames en) (n_cat en) (st_layout st) ch with
+          | Some (ap, rest) =>
+              (if nonempty ap && negb (last_dominates ap) then [MarkOfLastFrame] else [])
+              ++ (if strands ap rest then [InterruptedRefresh] else [])
           | None => []
           end
       end
